@@ -186,7 +186,11 @@ package wire
 //@   props C15 C06 C07
 //@   assert[C06,C07] go ClientConn).run: arg0 != nil && arg0.replyCh != nil && len(arg0.replyCh) == 0 && arg0.upstreams != nil && arg0.downstreams != nil && arg0.upstreams.mu != nil && arg0.downstreams.mu != nil
 //@   assert[C07] go ClientConn).run: len(arg0.upstreams.acks) == 0 && len(arg0.upstreams.aliases) == 0 && len(arg0.upstreams.messageWriters) == 0 && len(arg0.downstreams.dps) == 0 && len(arg0.downstreams.dpsUnreliable) == 0 && len(arg0.downstreams.ackCompletes) == 0 && len(arg0.downstreams.metadata) == 0 && len(arg0.downstreams.aliases) == 0
-//@   assert[C06] go ClientConn).run: arg0.transport == c.Transport && arg0.unreliableTransport == c.UnreliableTransport && arg0.idGenerator.currentValue == 0 && cap(arg0.msgRequestCh) >= 1 && cap(arg0.msgPingCh) >= 1
+//@   assert[C06] go ClientConn).run: arg0.transport == c.Transport && arg0.unreliableTransport == c.UnreliableTransport && cap(arg0.msgRequestCh) >= 1 && cap(arg0.msgPingCh) >= 1
+// (the connection's id generator is new: the connect request is its first draw. An earlier version of this clause
+// claimed `currentValue == 0` at `go run`, AFTER the connect request had drawn an id; it was "proved" because the
+// computed mod-set missed atomic writes to struct fields - DESIGN.md 13.3)
+//@   assert[C06] call waitForConnected: arg0.idGenerator.currentValue == 0
 //@   assert call waitForConnected: arg0.pingInterval == ite(c.PingInterval == 0, defaultPingInterval, c.PingInterval) && arg0.pingTimeout == ite(c.PingTimeout == 0, defaultPingTimeout, c.PingTimeout)
 //@   assert call waitForConnected: arg1 == ite(c.PingInterval == 0, defaultPingIntervalForServer, c.PingInterval) && arg2 == ite(c.PingTimeout == 0, defaultPingTimeoutForServer, c.PingTimeout)
 
